@@ -908,10 +908,28 @@ def _loglin_terms(p):
     return out
 
 
+CONST_VALUES = {}       # name of a constant atom -> its numeric value (consulted by evalf and by the witness search)
+
+
+def _exp_const(kind, q):
+    """exp(q) / cis(q) of a non-zero rational constant (numbers that reach an exponent because code under contract kept a
+    stale concrete value): an opaque constant with a known numeric value.  Relations between different such constants
+    are not known to the normal form - an equality that needs one is refuted only if the numeric witness check agrees,
+    which evaluates them exactly, and stays undecided otherwise."""
+    import cmath
+    if kind == "eh":
+        nm = "exp_const(%s)" % q
+        CONST_VALUES[nm] = math.exp(float(q))
+        return uf(nm, "pos")
+    nc, ns = "cos_const(%s)" % q, "sin_const(%s)" % q
+    CONST_VALUES[nc], CONST_VALUES[ns] = math.cos(float(q)), math.sin(float(q))
+    return uf(nc, "real") + I * uf(ns, "real")
+
+
 def _gen_pow(kind, g, q):
     """exp(q*g) (kind eh) or exp(i*q*g) (kind ch) for generator atom g, rational q."""
     if g is None:
-        raise Unmodelled("exp of a non-zero rational constant")
+        return _exp_const(kind, q)
     if kind == "eh" and g.kind == "Lg":
         u = g.args[0]
         q2 = 2 * q
@@ -1379,7 +1397,7 @@ def _evatom(at, env, cache):
     if k == "i":
         r = 1j
     elif k in ("par", "UF"):
-        r = env[at.key[1]]
+        r = CONST_VALUES[at.key[1]] if at.key[1] in CONST_VALUES else env[at.key[1]]
     elif k == "eh":
         r = math.exp(_evatom(at.args[0], env, cache).real / EXP_DEN) if isinstance(_evatom(at.args[0], env, cache), complex) \
             else math.exp(_evatom(at.args[0], env, cache) / EXP_DEN)
